@@ -31,14 +31,14 @@ def levels(tier):
              "defaults": ["never"], "pool": POOL5, "ks": [1], "requery": True},
         ]
     return [
-        {"name": "subset", "n": 0, "prelude": TPL, "subset": 3, "alphabet": ["links"], "defaults": ["never"], "pool": POOL5, "ks": [1, 2, 3, 5]},
-        {"name": "empty-prefix", "n": 0, "prelude": TPL3, "subset": 3, "alphabet": ["links"], "defaults": ["never"], "pool": POOL6, "ks": [1, 2, 3],
+        {"name": "subset3", "n": 0, "prelude": TPL, "subset": 3, "alphabet": ["links"], "defaults": ["never"], "pool": POOL5, "ks": [1, 2, 3, 5]},
+        {"name": "empty-prefix3", "n": 0, "prelude": TPL3, "subset": 3, "alphabet": ["links"], "defaults": ["never"], "pool": POOL6, "ks": [1, 2, 3],
          "orders": 6},
         {"name": "subset-n1", "n": 1, "prelude": TPL, "subset": 2, "alphabet": ["links", "we", "addprefix"], "links_batch": 1, "defaults": ["never"], "pool": POOL5, "ks": [1, 2]},
-        {"name": "tpl-n2", "n": 2, "prelude": TPL, "alphabet": ["links", "we"], "links_batch": 2, "defaults": ["never"], "pool": POOL5, "ks": [1, 2, 3]},
-        {"name": "tpl-n3", "n": 3, "prelude": TPL, "alphabet": ["links"], "links_batch": 1, "defaults": ["never"], "pool": POOL5, "ks": [1, 2]},
-        {"name": "n3", "n": 3, "alphabet": ["links", "we", "addprefix"], "links_batch": 1, "defaults": ["domain", "never"],
-         "pool": [POOL4[0], POOL4[1], POOL4[3]], "ks": [1, 2]},
+        {"name": "tpl-n2", "n": 2, "prelude": TPL, "alphabet": ["links"], "links_batch": 1, "defaults": ["never"], "pool": POOL5, "ks": [1, 2]},
+        {"name": "requery-n2", "n": 2, "prelude": TPL + [["we", [[2, 5]]], ["links", [[0, 1], [1, 2], [4, 2], [3, 0]]]], "alphabet": ["addprefix", "rmprefix", "moveprefix", "delwe"],
+         "defaults": ["never"], "pool": POOL5, "ks": [1, 2], "requery": True},
+        {"name": "n3", "n": 3, "alphabet": ["links", "we"], "links_batch": 1, "defaults": ["never"], "pool": [POOL4[0], POOL4[1], POOL4[3]], "ks": [1, 2]},
     ]
 
 
